@@ -40,13 +40,26 @@ def caller_arrays(spec):
             "charges": np.array(spec["charges"], dtype=float), "groups": np.array(spec["groups"], dtype=int)}
 
 
+def _cell_arg(spec):
+    """the cell as the caller writes it: a float array, or - for whole-number cells, spec["cell_form"] - nested lists of
+    Python ints / an integer numpy array (Atoms(cell=[[10, 0, 0], [0, 12, 0], [0, 0, 15]]), np.diag([10, 12, 15]))"""
+    form = spec.get("cell_form", "float")
+    if not all(float(x).is_integer() and abs(x) < 1e6 for r in spec["cell"] for x in r):
+        form = "float"      # the cell was rescaled / turned after it was drawn
+    if form == "int-list":
+        return [[int(round(x)) for x in r] for r in spec["cell"]]
+    if form == "int-array":
+        return np.array([[int(round(x)) for x in r] for r in spec["cell"]], dtype=int)
+    return np.array(spec["cell"], float)
+
+
 def build(spec, arrays=None):
     from mofun import Atoms
     kw = dict(atom_types=list(spec["atom_types"]), positions=np.array(spec["pos"], float).reshape(-1, 3),
               atom_type_elements=list(spec["type_elements"]), atom_type_labels=list(spec["type_labels"]),
               atom_type_masses=list(spec["type_masses"]), pair_coeffs=list(spec["pair_coeffs"]),
               charges=list(spec["charges"]), groups=list(spec["groups"]),
-              cell=None if spec["cell"] is None else np.array(spec["cell"], float),
+              cell=None if spec["cell"] is None else _cell_arg(spec),
               extra_atom_labels=list(spec["extra_atom_labels"]),
               extra_atom_fields=[list(r) for r in spec["extra_atom_fields"]] if spec["extra_atom_labels"] else [])
     for k in KINDS:
